@@ -11,11 +11,20 @@ import (
 
 	"github.com/wolimst/lib-secs2-hsms-go/pkg/ast"
 	"github.com/wolimst/lib-secs2-hsms-go/pkg/parser/hsms"
+	"github.com/wolimst/lib-secs2-hsms-go/pkg/parser/sml"
 )
 
 type panicked struct{ msg string }
 type failed struct{}
 type skipped struct{}
+type smlRes struct {
+	msgs        []*ast.DataMessage
+	errs, warns []string
+}
+type lexRes struct {
+	input string
+	toks  []sml.VerifToken
+}
 type headerRes struct {
 	b  []byte
 	ok bool
@@ -301,6 +310,20 @@ func (e *Exec) evalStep(s Step) (res interface{}) {
 	case "HB":
 		b, ok := ast.VerifHeaderBytes(string(s.S), int(s.N))
 		return headerRes{b, ok}
+	case "SP":
+		ms, errs, warns := sml.Parse(string(s.S))
+		return smlRes{ms, errs, warns}
+	case "SX":
+		return lexRes{string(s.S), sml.VerifLex(string(s.S))}
+	case "PK":
+		if s.Ref < 0 || s.Ref >= len(e.Pool) {
+			return skipped{}
+		}
+		r, ok := e.Pool[s.Ref].(smlRes)
+		if !ok || s.Idx < 0 || s.Idx >= len(r.msgs) {
+			return skipped{}
+		}
+		return r.msgs[s.Idx]
 	}
 	panic("exec: unknown op " + s.Op)
 }
@@ -326,6 +349,10 @@ func (e *Exec) observe(x interface{}) string {
 		return "N"
 	case skipped:
 		return "X"
+	case smlRes:
+		return fmt.Sprintf("S n=%d errs=%s warns=%s", len(v.msgs), diagsField(v.errs), diagsField(v.warns))
+	case lexRes:
+		return "T toks=" + tokensField(v.toks)
 	case headerRes:
 		if !v.ok {
 			return "H bytes=err"
